@@ -66,7 +66,7 @@ $(BUILD)/win/%.o: $(VERIF_REPO)/reproc/src/%.c $(wildcard $(SRC)/winstub/*.h)
 	$(CC) -O1 -g -std=gnu99 $(SAN) -D_WIN32 -DWIN32 -I$(SRC)/winstub -I$(VERIF_REPO)/reproc/include -I$(VERIF_REPO)/reproc/src -Wno-everything -MMD -MP -c $< -o $@
 $(BUILD)/win/winstub.o: $(SRC)/winstub/winstub.c $(wildcard $(SRC)/winstub/*.h)
 	@mkdir -p $(dir $@)
-	$(CC) -O1 -g -std=gnu99 $(SAN) -D_WIN32 -DWIN32 -I$(SRC)/winstub -MMD -MP -c $< -o $@
+	$(CC) -O1 -g -std=gnu99 $(SAN) -D_WIN32 -DWIN32 -I$(SRC)/winstub -I$(VERIF_REPO)/reproc/include -I$(VERIF_REPO)/reproc/src -MMD -MP -c $< -o $@
 -include $(wildcard $(BUILD)/win/*.d)
 
 # ---------------------------------------------------------------- harness ----
@@ -115,7 +115,11 @@ $(BUILD)/props/C19: $(BUILD)/props/C19.o $(FWBUILD)/fw_main.o $(BUILD)/cxx/repro
 $(BUILD)/props/C18: $(BUILD)/props/C18.o $(FWBUILD)/fw_main.o $(addprefix $(BUILD)/win/,$(addsuffix .o,$(WINSRC))) $(BUILD)/win/winstub.o
 	$(CXX) $(SAN) -o $@ $^ -lrapidcheck -lpthread
 $(BUILD)/props/C18.o: HCXXFLAGS += -I$(SRC)/winstub
-$(BUILD)/fuzz/C18_fuzz: $(SRC)/fuzz/C18_fuzz.cpp $(SRC)/props/C18_oracle.hpp $(addprefix $(BUILD)/win/,$(addsuffix .o,$(WINSRC))) $(BUILD)/win/winstub.o
+$(BUILD)/winfuzz/%.o: $(VERIF_REPO)/reproc/src/%.c $(wildcard $(SRC)/winstub/*.h)
+	@mkdir -p $(dir $@)
+	$(CC) -O1 -g -std=gnu99 -fsanitize=fuzzer-no-link,address,undefined -fno-sanitize-recover=undefined -D_WIN32 -DWIN32 -I$(SRC)/winstub -I$(VERIF_REPO)/reproc/include -I$(VERIF_REPO)/reproc/src -Wno-everything -MMD -MP -c $< -o $@
+-include $(wildcard $(BUILD)/winfuzz/*.d)
+$(BUILD)/fuzz/C18_fuzz: $(SRC)/fuzz/C18_fuzz.cpp $(SRC)/props/C18_oracle.hpp $(addprefix $(BUILD)/winfuzz/,$(addsuffix .o,$(WINSRC))) $(BUILD)/win/winstub.o
 	@mkdir -p $(dir $@)
 	$(CXX) -std=gnu++17 -g -O1 -fsanitize=fuzzer,address,undefined -fno-sanitize-recover=undefined -I$(SRC) -I$(SRC)/winstub -I$(SRC)/props -o $@ $(filter %.cpp %.o,$^)
 
@@ -133,7 +137,7 @@ prop-%: $(BUILD)/props/%
 	@true
 
 ALL_PROPS := $(patsubst $(SRC)/props/%.cpp,%,$(wildcard $(SRC)/props/C??.cpp))
-all: $(addprefix $(BUILD)/props/,$(ALL_PROPS)) $(FWBUILD)/puppet
+all: $(addprefix $(BUILD)/props/,$(ALL_PROPS)) $(FWBUILD)/puppet $(BUILD)/fuzz/C18_fuzz
 
 clean:
 	rm -rf $(BUILD) $(FWBUILD)
